@@ -171,6 +171,35 @@ def generate(repo=None, out_dir=None):
     defs.append("Definition level0_cycmax_recomputed : bool := "
                 + ("true" if recomputed else "false") + ".\n")
 
+    # 4c. end-of-cycle block on the original grid: the directions are advanced
+    #     (var.sc_dir = next(var.sc_cycle), var.lr_dir = next(var.lr_cycle)) in EVERY
+    #     fine-grid cycle, i.e. unconditionally and BEFORE the `if _terminate(..): break`;
+    #     otherwise the last cycle of a preconditioner call would not advance them
+    end_blocks = []
+    for st in whl[0].body:
+        if isinstance(st, ast.If):
+            for blk in (st.body, st.orelse):
+                if any(isinstance(x, ast.If) and '_terminate(' in ast.unparse(x.test) for x in blk):
+                    end_blocks.append(blk)
+    if len(end_blocks) != 1:
+        bad(fn, "multigrid(): end-of-cycle block with the _terminate test not found")
+    blk = end_blocks[0]
+    srcs = [ast.unparse(x) for x in blk]
+    want_sc = "if var.sc_cycle:\n    var.sc_dir = next(var.sc_cycle)"
+    want_lr = "if var.lr_cycle:\n    var.lr_dir = next(var.lr_cycle)"
+    iterm = [i for i, x in enumerate(blk) if isinstance(x, ast.If) and '_terminate(' in ast.unparse(x.test)]
+    if len(iterm) != 1 or [ast.unparse(x) for x in blk[iterm[0]].body] != ['break'] or blk[iterm[0]].orelse:
+        bad(fn, "multigrid(): termination test changed shape")
+    if srcs.count(want_sc) != 1 or srcs.count(want_lr) != 1:
+        bad(fn, "multigrid(): direction hand-over statements changed shape")
+    for n in ast.walk(fn):
+        if isinstance(n, ast.Assign) and ast.unparse(n.targets[0]) in ('var.sc_dir', 'var.lr_dir') \
+                and not any(n in ast.walk(x) for x in blk):
+            bad(n, "multigrid(): direction assigned outside the end-of-cycle block")
+    before = srcs.index(want_sc) < iterm[0] and srcs.index(want_lr) < iterm[0]
+    defs.append("Definition dirs_advance_before_terminate : bool := "
+                + ("true" if before else "false") + ".\n")
+
     # 4b. the recursive call: multigrid(..., level=level+1, new_cycmax=cycmax-cyc)
     rec = [n for n in ast.walk(fn) if isinstance(n, ast.Call) and isinstance(n.func, ast.Name)
            and n.func.id == 'multigrid']
